@@ -14,6 +14,7 @@ mod featdrv;
 mod dndrv;
 mod importdrv;
 mod keydrv;
+mod panicdrv;
 mod keys;
 mod ossl;
 mod pathdrv;
@@ -58,6 +59,8 @@ fn main() {
 		"features" => featdrv::run_features(&args[2], &args[3], &args[4]),
 		"key-export" => featdrv::key_export(&args[2]),
 		"key-xfer" => featdrv::key_xfer(&args[2], &args[3], &args[4]),
+		"panic-matrix" => panicdrv::run_matrix(&args[2], &args[3]),
+		"panic-parsers" => panicdrv::run_parsers(&args[2], &args[3]),
 		"dn-cases" => dndrv::run_cases(&args[2], &args[3]),
 		"dn-random" => dndrv::run_random(&args[2], args[3].parse().unwrap(), args[4].parse().unwrap()),
 		other => {
